@@ -2,6 +2,7 @@
 JSON schema emitter
 """
 
+from copy import deepcopy
 from collections import OrderedDict
 from functools import partial
 from json import dump
@@ -48,6 +49,8 @@ def json_schema(
     :return: JSON Schema dict
     :rtype: ```dict```
     """
+    # work on a copy: the caller's interface description is input, not scratch space
+    intermediate_repr = deepcopy(intermediate_repr)
     del emit_default_doc, word_wrap
     assert isinstance(
         intermediate_repr, dict
